@@ -112,6 +112,7 @@ type trans struct {
 	inHeadHavoc bool
 	localAllocs map[*ssa.Alloc]bool
 	heapRefs    map[string]string
+	curCallArgs []ssa.Value
 }
 
 func (tr *trans) errorf(f string, a ...any) {
@@ -214,7 +215,7 @@ func (tr *trans) havocAll(st State) {
 			tr.vc.assume(app(">=", n, old))
 			continue
 		}
-		if strings.HasPrefix(name, "call.") || strings.HasPrefix(name, "lock.") || strings.HasPrefix(name, "recv.") || strings.HasPrefix(name, "L.") || strings.HasPrefix(name, "iter.") || strings.HasPrefix(name, "defer.") {
+		if strings.HasPrefix(name, "call.") || strings.HasPrefix(name, "lock.") || strings.HasPrefix(name, "recv.") || strings.HasPrefix(name, "sent.") || strings.HasPrefix(name, "L.") || strings.HasPrefix(name, "iter.") || strings.HasPrefix(name, "defer.") {
 			continue
 		}
 		tr.havocState(st, name)
@@ -818,6 +819,9 @@ func (tr *trans) funcEnv(st State) *Env {
 		env.vars[p.Name()+"0"] = sv
 	}
 	for _, fv := range tr.fn.FreeVars {
+		if tr.fc.Pure[fv.Name()] {
+			continue
+		}
 		// captured variable: pointer to the cell
 		if pt, ok := fv.Type().Underlying().(*types.Pointer); ok {
 			l := &Loc{kind: locObj, ref: tr.val(fv), ty: pt.Elem()}
@@ -929,7 +933,7 @@ func (tr *trans) run() {
 	}
 	tr.vc.assume(app(">", tr.getState(tr.entry, "$next"), "0"))
 	for _, k := range sortedKeys(tr.known) {
-		if k == "recv.n" {
+		if k == "recv.n" || k == "sent.n" {
 			// the ghost receive history of every channel starts empty at function entry
 			tr.vc.assume(eq(tr.getState(tr.entry, k), "((as const (Array Int Int)) 0)"))
 		}
@@ -954,6 +958,10 @@ func (tr *trans) run() {
 		tr.vc.declConst(name, tr.vc.sortOf(fv.Type()))
 		tr.vals[fv] = name
 		tr.recordTerm(name, fv)
+		if tr.fc.Pure[fv.Name()] {
+			tr.pure[fv.Name()] = tr.pureParamRef(fv)
+			continue
+		}
 		if inv := tr.typeInv(name, fv.Type(), st, 0); inv != "true" {
 			tr.vc.assume(inv)
 		}
@@ -1267,9 +1275,39 @@ func (tr *trans) varAtEnd(b *ssa.BasicBlock, name string, st State) (SV, bool) {
 	return SV{}, false
 }
 
+// rangeLenOf: for `for i := range x` the head tests rangeindex+1 < len(x) with len(x) taken before the loop.
+func (tr *trans) rangeLenOf(h *ssa.BasicBlock, phi *ssa.Phi) ssa.Value {
+	for _, in := range h.Instrs {
+		b, ok := in.(*ssa.BinOp)
+		if !ok || b.Op != token.LSS {
+			continue
+		}
+		inc, ok := b.X.(*ssa.BinOp)
+		if !ok || inc.Op != token.ADD || inc.X != phi {
+			continue
+		}
+		if c, ok := inc.Y.(*ssa.Const); !ok || c.Int64() != 1 {
+			continue
+		}
+		if yi, ok := b.Y.(ssa.Instruction); ok && yi.Block() != nil && !tr.loops[h.Index].blocks[yi.Block().Index] {
+			return b.Y
+		}
+	}
+	return nil
+}
+
 func (tr *trans) loopEnv(li *loopInfo, predIdx int, st State) *Env {
 	env := tr.funcEnv(st)
 	h := tr.fn.Blocks[li.head]
+	for _, in := range h.Instrs {
+		if phi, ok := in.(*ssa.Phi); ok && phi.Comment == "rangeindex" {
+			if lv := tr.rangeLenOf(h, phi); lv != nil {
+				if _, done := tr.vals[lv]; done {
+					env.vars["rangelen"] = env.intSV(tr.val(lv))
+				}
+			}
+		}
+	}
 	env.lookup = func(name string) (SV, bool) {
 		if name == "rangepos" {
 			// position of the string iterator feeding this loop
@@ -1329,6 +1367,10 @@ func (tr *trans) loopItems(li *loopInfo) []Item {
 		if phi.Comment == "rangeindex" {
 			e, _ := ParseExpr("-1 <= rangeindex")
 			items = append(items, Item{Kind: "invariant", Label: "auto-rangeindex", E: e, Src: "-1 <= rangeindex"})
+			if tr.rangeLenOf(h, phi) != nil {
+				e2, _ := ParseExpr("rangeindex < rangelen")
+				items = append(items, Item{Kind: "invariant", Label: "auto-rangelen", E: e2, Src: "rangeindex < rangelen"})
+			}
 		}
 	}
 	if li.spec != nil {
